@@ -13,8 +13,8 @@ def rd(f):
 meta["verified_by_me"] = {
     "demo_with_patch_tail": rd("demo_with.log"), "demo_without_patch_tail": rd("demo_without.log"),
     "pytest_with_patch": rd("pytest.log"), "check_output": rd("check.log"),
-    "procedure": "demo run in the sub-agent's scratch worktree with and without the patch (git stash); pytest there with the patch; "
-                 "patch applied to /repo (git apply), ./check %s --tier quick run, then git checkout -- ." % pid}
+    "procedure": "demo run in the sub-agent scratch worktree with and without the patch (git apply / git apply -R); pytest there with the patch; "
+                 "patch applied to a scratch worktree of /repo HEAD, ./check %s --tier quick run against it (PYTHONPATH), worktree removed" % pid}
 meta["caught_by_quick_check"] = caught
 meta["caught_how"] = how
 json.dump(meta, open(os.path.join(dst, "meta.json"), "w"), indent=1)
